@@ -231,6 +231,22 @@ func scanStep(v svec, r rune) (svec, bool) {
 	return nv, live
 }
 
+// scanStepInto is scanStep without allocation.
+func scanStepInto(v, nv svec, r rune) bool {
+	live := false
+	for i := range scanComps {
+		if v[i] < 0 {
+			nv[i] = -1
+			continue
+		}
+		nv[i] = scanComps[i].step(v[i], r)
+		if nv[i] >= 0 {
+			live = true
+		}
+	}
+	return live
+}
+
 // scanLabel returns the token kind of a product state ("" = not accepting) and whether the verdict is a
 // documented conflict (masked): the one-letter TOKEN.
 func scanLabel(v svec) (label string, masked bool) {
@@ -277,15 +293,18 @@ func refScan(text string) rscan {
 	var out rscan
 	off, line, col := 0, 1, 1
 	i := 0
+	v, nv := scanStart(), scanStart()
 	for i < len(rs) {
-		v := scanStart()
+		for k := range v {
+			v[k] = 0
+		}
 		j := i
 		for j < len(rs) {
-			nv, live := scanStep(v, rs[j])
+			live := scanStepInto(v, nv, rs[j])
 			if !live {
 				break
 			}
-			v = nv
+			v, nv = nv, v
 			j++
 		}
 		lab, masked := scanLabel(v)
